@@ -108,10 +108,11 @@ theorem C16_finding_waitgroup_reuse :
     (run? (init 100 1) wgTrace).map (fun s => (s.rpc, s.pend.length, (step? s (.pendAdd 1)).isSome)) =
       some (.waited, 0, true) := by decide
 
-/-- (c) server side, model level: a response sent by another goroutine while
-    `handleOpenSecureChannelRequest` re-keys the instance is secured with the
-    asymmetric algorithm -/
-theorem C16_rekey_counterexample :
+/-- FINDING C16.server-rekey-wrong-algorithm (server side): a response sent by
+    another goroutine while `readChunk` / `handleOpenSecureChannelRequest` re-key
+    the one instance object is secured with the asymmetric algorithm (confirmed on
+    the real code by a forced schedule: the client rejects the chunk) -/
+theorem C16_finding_server_rekey :
     (rrun? rinit [.readOPN, .sLock 0, .sSecure 0]).map (fun s => s.wire) = some [(false, .asym)] := by decide
 
 /-- (c) PARTIAL (guard: no chunk is secured while an OPN request is processed) -/
